@@ -116,6 +116,7 @@ func init() {
 			}
 			blockEnumRun("C14")(c)
 			c14Frames(c)
+			c09OptionChange(c) // a reused Writer must emit the bytes a new one emits
 		},
 		Finalize: func(cov map[string]interface{}, p *ev.Partial) {
 			cov["states"] = p.Counters["distinct_states"] + p.Counters["histories"] + 1
